@@ -19,11 +19,16 @@ run against that worktree (`VERIF_REPO=<worktree> bin/check <id>`; /repo itself 
 and `meta.json` are kept under `seeded/<name>/`. %d changes, all detected by the quick tier; the last column says which ones were
 MISSED when first evaluated and what was added to the specification / families because of it (a check was never loosened).
 Five rounds were run (names without a round tag are round 1). Kept changes / of which first missed, per round: 19 / 7, 19 / 11, 7 / 6, 15 / 2,
-7 / 1 (plus one caught by the check of its own property but missed by a second check it also breaks). Round 4's two misses (a profile's
+14 / 3 (plus one caught by the check of its own property but missed by a second check it also breaks). Round 4's two misses (a profile's
 `ParseRef` against an opaque-path base, and an accessor that depends on WHICH IPv6 address the host is) led to the `CanonRunB` operator and the
-address-kind families; round 5's (a run of escaped invalid bytes in a query collapsed to one U+FFFD) to the `formparse_bytes` family. Changes
-that repeated an archived one (same edit or same manifestation: C03, C11, C13, C17, C20 in round 4, C18 in round 5) were evaluated - all
-detected - and not archived again. The whole archive was re-run after round 4 (60 of 60 detected by the quick tier). After a fix commit rewrites the patched region a
+address-kind families; round 5's three (a run of escaped invalid bytes in a query collapsed to one U+FFFD; an IPv4 tail part of 256..2559 inside
+an IPv6 literal; `IsIPv4` under lax host parsing) to the `formparse_bytes`, `v6tail_*` and `derived_lax` families. Changes that repeated an
+archived one (same edit or same manifestation: C03, C11, C13, C17, C20 in round 4, C09, C18 in round 5) were evaluated - all detected - and
+not archived again. One round-5 change written for C07 (a lone `0` part of an IPv4 address flagged as a non-decimal validation error) changes
+nothing under the default parser and keeps every relation of C15 intact (reporting records the spurious entry, fail mode rejects accordingly):
+it breaks no listed property - its author said as much - and was not archived; an exact comparison of the recorded validation errors with
+the specification's inventory would see it, and is deliberately not a verdict because no property demands it. The whole archive was
+re-run after round 4 (60 of 60 detected by the quick tier). After a fix commit rewrites the patched region a
 patch is rebased onto the repaired tree (noted in its `meta.json`); `tools/eval_all_seeded.sh` re-runs the whole archive.
 
 | seeded change | breaks | needs, in order to manifest | detected by | missed before strengthening |
